@@ -50,6 +50,25 @@ def run(ck, replay=None):
     shapes = sorted(set(shapes))
     darsia = import_darsia()
     rng = random.Random(ck.seed)
+    # grids that agree in everything a memo could be keyed by except the shape itself (same number of cells per face layer /
+    # one voxel layer moved to another axis), built and read along every interleaving of spec/TwoObjects.tla
+    from lib import twoobj
+    hists = twoobj.histories(ck)
+    ntwin = 0
+    tspecs = []
+    for sa, sb in (((2, 5), (3, 4)), ((4, 5), (5, 4)), ((2, 3, 3), (3, 2, 3)), ((3, 5), (5, 3))):
+        def make(o, sa=sa, sb=sb):
+            return darsia.Grid(sa if o == "a" else sb, [0.5] * len(sa))
+
+        def use(o, g):
+            t = tables(g, "")
+            del t["tid"]
+            return json.dumps(t, sort_keys=True)
+
+        sel = hists if ck.tier != "quick" else [h for h in hists if len(h) <= 4]
+        tspecs.append((sel, "x".join(map(str, sa)) + "-" + "x".join(map(str, sb)), make, use, lambda x, y: x == y,
+                                                       "twin:" + "x".join(map(str, sa))))
+    ntwin = twoobj.run(ck, "C07", tspecs)
     events = []
     for s in shapes:
         events.append(tables(darsia.Grid(s), "grid:" + "x".join(map(str, s))))
@@ -88,6 +107,7 @@ def run(ck, replay=None):
         s = b["event"]["shape"]
         ck.violation(f"C07:{b['clause']}:{len(s)}d", f"grid tables violate clause {b['clause']}",
                      {"shape": s, "tid": b["tid"], "clause": b["clause"]})
+    ck.cov["twin_object_histories"] = ntwin
     ck.cov["evaluations"] = len(events)
     ck.cov["distinct_nontrivial"] = len({tuple(e["shape"]) for e in events if len(e["conn"]) > 0})
     ck.cov["rule"] = ("every shape enumerated by TLC (MC_Grid) is built with darsia.Grid (isotropic and anisotropic voxel sizes), "
